@@ -18,7 +18,10 @@ FN = "graphtage.matching.min_weight_bipartite_matching"
 def r15(ctx):
     m = ctx.model
     f = m.func(FN)
-    fn = f.node
+    from ..astx import inline_value_helpers
+    # a value computed by a module-level helper made of if / return only (`dtype = _weights_dtype(edge_type, lo, hi)`) is read
+    # as the if/elif chain it stands for
+    fn = inline_value_helpers(m, f.module, f.node)
     fl = f.file
     name = "min_weight_bipartite_matching"
     ctx.rule("R15a", "result construction: pairs are zip(row_ind, col_ind) of the solver's answer, each reported as "
@@ -194,7 +197,15 @@ def r15(ctx):
                 and dotted(s.value) == SV]
         dts = [s for s in walk_no_nested(fn) if isinstance(s, ast.Assign) and dotted(s.targets[0]) == DV
                and isinstance(s.value, ast.Call) and (call_name(s.value) or "").endswith("get_dtype")]
-        if fold and dts and fold[0].lineno < dts[0].lineno and _same_or_outer(fold[0], sent[0]):
+        order = {}
+        def _number(stmts):
+            for st_ in stmts:
+                order[id(st_)] = len(order)
+                for fld_ in ("body", "orelse", "finalbody"):
+                    if isinstance(getattr(st_, fld_, None), list):
+                        _number(getattr(st_, fld_))
+        _number(fn.body)        # position in the (helper-inlined) function, not the line a statement was written on
+        if fold and dts and order.get(id(fold[0]), 10 ** 9) < order.get(id(dts[0]), -1) and _same_or_outer(fold[0], sent[0]):
             ctx.proved("R15b", fl, name, fold[0], "sentinel folded before dtype",
                        "max_edge = sentinel precedes dtype = get_dtype(min_edge, max_edge)")
         else:
